@@ -580,3 +580,164 @@ pub fn panic_site(payload: &(dyn std::any::Any + Send)) -> String {
 pub fn catch<T>(f: impl FnOnce() -> T + std::panic::UnwindSafe) -> Result<T, String> {
     std::panic::catch_unwind(f).map_err(|p| panic_site(&*p))
 }
+
+// ---------------------------------------------------------------- variances, domain goals, udb
+
+pub fn enc_variance(v: Variance) -> Sexp {
+    atom(match v {
+        Variance::Covariant => "co",
+        Variance::Invariant => "inv",
+        Variance::Contravariant => "contra",
+    })
+}
+pub fn dec_variance(s: &Sexp) -> Option<Variance> {
+    Some(match s.as_atom()? {
+        "co" => Variance::Covariant,
+        "inv" => Variance::Invariant,
+        "contra" => Variance::Contravariant,
+        _ => return None,
+    })
+}
+
+/// A `UnificationDatabase` given by two tables (adt id -> variances, fn def id -> variances);
+/// ids beyond the tables have the empty list.
+#[derive(Debug, Clone, Default)]
+pub struct TableDb {
+    pub adts: Vec<Vec<Variance>>,
+    pub fns: Vec<Vec<Variance>>,
+}
+impl UnificationDatabase<ChalkIr> for TableDb {
+    fn fn_def_variance(&self, id: FnDefId<ChalkIr>) -> Variances<ChalkIr> {
+        Variances::from_iter(I, self.fns.get(id.0.index as usize).cloned().unwrap_or_default())
+    }
+    fn adt_variance(&self, id: AdtId<ChalkIr>) -> Variances<ChalkIr> {
+        Variances::from_iter(I, self.adts.get(id.0.index as usize).cloned().unwrap_or_default())
+    }
+}
+pub fn enc_udb(db: &TableDb) -> Sexp {
+    let t = |tab: &Vec<Vec<Variance>>| list(tab.iter().map(|vs| list(vs.iter().map(|v| enc_variance(*v)).collect())).collect());
+    tagged("udb", vec![t(&db.adts), t(&db.fns)])
+}
+pub fn dec_udb(s: &Sexp) -> Option<TableDb> {
+    let (t, xs) = s.tagged()?;
+    if t != "udb" || xs.len() != 2 {
+        return None;
+    }
+    let tab = |x: &Sexp| -> Option<Vec<Vec<Variance>>> {
+        x.as_list()?.iter().map(|vs| vs.as_list()?.iter().map(dec_variance).collect()).collect()
+    };
+    Some(TableDb { adts: tab(&xs[0])?, fns: tab(&xs[1])? })
+}
+
+fn enc_alias(a: &AliasTy<ChalkIr>) -> Sexp {
+    match a {
+        AliasTy::Projection(p) => tagged("proj", vec![nat(p.associated_ty_id.0.index as usize), enc_subst(&p.substitution)]),
+        AliasTy::Opaque(o) => tagged("opaque", vec![nat(o.opaque_ty_id.0.index as usize), enc_subst(&o.substitution)]),
+    }
+}
+fn dec_alias(s: &Sexp) -> Option<AliasTy<ChalkIr>> {
+    let (t, xs) = s.tagged()?;
+    Some(match (t, xs) {
+        ("proj", [id, a]) => AliasTy::Projection(ProjectionTy { associated_ty_id: AssocTypeId(raw(id.as_nat()?)), substitution: dec_subst(a)? }),
+        ("opaque", [id, a]) => AliasTy::Opaque(OpaqueTy { opaque_ty_id: OpaqueTyId(raw(id.as_nat()?)), substitution: dec_subst(a)? }),
+        _ => return None,
+    })
+}
+fn tref(tr: &Sexp, a: &Sexp) -> Option<TraitRef<ChalkIr>> {
+    Some(TraitRef { trait_id: TraitId(raw(tr.as_nat()?)), substitution: dec_subst(a)? })
+}
+fn enc_tref(tag: &str, tr: &TraitRef<ChalkIr>) -> Sexp {
+    tagged(tag, vec![nat(tr.trait_id.0.index as usize), enc_subst(&tr.substitution)])
+}
+
+pub fn enc_domain_goal(g: &DomainGoal<ChalkIr>) -> Sexp {
+    match g {
+        DomainGoal::Holds(w) => tagged("holds", vec![enc_wc(w)]),
+        DomainGoal::WellFormed(WellFormed::Trait(tr)) => enc_tref("wf-trait", tr),
+        DomainGoal::WellFormed(WellFormed::Ty(t)) => tagged("wf-ty", vec![enc_ty(t)]),
+        DomainGoal::FromEnv(FromEnv::Trait(tr)) => enc_tref("from-env-trait", tr),
+        DomainGoal::FromEnv(FromEnv::Ty(t)) => tagged("from-env-ty", vec![enc_ty(t)]),
+        DomainGoal::Normalize(n) => tagged("normalize", vec![enc_alias(&n.alias), enc_ty(&n.ty)]),
+        DomainGoal::IsLocal(t) => tagged("is-local", vec![enc_ty(t)]),
+        DomainGoal::IsUpstream(t) => tagged("is-upstream", vec![enc_ty(t)]),
+        DomainGoal::IsFullyVisible(t) => tagged("is-fully-visible", vec![enc_ty(t)]),
+        DomainGoal::LocalImplAllowed(tr) => enc_tref("local-impl-allowed", tr),
+        DomainGoal::Compatible => atom("compatible"),
+        DomainGoal::DownstreamType(t) => tagged("downstream-type", vec![enc_ty(t)]),
+        DomainGoal::Reveal => atom("reveal"),
+        DomainGoal::ObjectSafe(id) => tagged("object-safe", vec![nat(id.0.index as usize)]),
+    }
+}
+
+pub fn dec_domain_goal(s: &Sexp) -> Option<DomainGoal<ChalkIr>> {
+    if let Some(a) = s.as_atom() {
+        return match a {
+            "compatible" => Some(DomainGoal::Compatible),
+            "reveal" => Some(DomainGoal::Reveal),
+            _ => None,
+        };
+    }
+    let (t, xs) = s.tagged()?;
+    Some(match (t, xs) {
+        ("holds", [w]) => DomainGoal::Holds(dec_wc(w)?),
+        ("wf-trait", [tr, a]) => DomainGoal::WellFormed(WellFormed::Trait(tref(tr, a)?)),
+        ("wf-ty", [t]) => DomainGoal::WellFormed(WellFormed::Ty(dec_ty(t)?)),
+        ("from-env-trait", [tr, a]) => DomainGoal::FromEnv(FromEnv::Trait(tref(tr, a)?)),
+        ("from-env-ty", [t]) => DomainGoal::FromEnv(FromEnv::Ty(dec_ty(t)?)),
+        ("normalize", [al, t]) => DomainGoal::Normalize(Normalize { alias: dec_alias(al)?, ty: dec_ty(t)? }),
+        ("is-local", [t]) => DomainGoal::IsLocal(dec_ty(t)?),
+        ("is-upstream", [t]) => DomainGoal::IsUpstream(dec_ty(t)?),
+        ("is-fully-visible", [t]) => DomainGoal::IsFullyVisible(dec_ty(t)?),
+        ("local-impl-allowed", [tr, a]) => DomainGoal::LocalImplAllowed(tref(tr, a)?),
+        ("downstream-type", [t]) => DomainGoal::DownstreamType(dec_ty(t)?),
+        ("object-safe", [id]) => DomainGoal::ObjectSafe(TraitId(raw(id.as_nat()?))),
+        _ => return None,
+    })
+}
+
+pub const TY_HEADS: &[&str] = &[
+    "adt", "assoc", "scalar", "tuple", "array", "slice", "raw", "ref", "opaque-ty", "fndef", "str", "never", "closure",
+    "coroutine", "witness", "foreign", "error", "ph", "dyn", "proj", "opaque", "fn", "bound", "infer",
+];
+
+pub fn is_ty(s: &Sexp) -> bool {
+    match s {
+        Sexp::Atom(a) => matches!(a.as_str(), "str" | "never" | "error"),
+        Sexp::List(xs) => match xs.first().and_then(|x| x.as_atom()) {
+            Some(h) => TY_HEADS.contains(&h) && !(xs.len() == 2 && h == "ty"),
+            None => false,
+        },
+    }
+}
+
+/// Rebuild `s`, offering every *type* node (top-down) to `f`; `Some(r)` replaces the node.
+/// Positions that hold an alias (`proj`/`opaque` directly under `normalize`) are not offered.
+pub fn map_types(s: &Sexp, f: &mut dyn FnMut(&Sexp) -> Option<Sexp>) -> Sexp {
+    if is_ty(s) {
+        if let Some(r) = f(s) {
+            return r;
+        }
+    }
+    match s {
+        Sexp::Atom(_) => s.clone(),
+        Sexp::List(xs) => {
+            let is_norm = xs.first().and_then(|x| x.as_atom()) == Some("normalize");
+            Sexp::List(
+                xs.iter()
+                    .enumerate()
+                    .map(|(i, x)| {
+                        if is_norm && i == 1 {
+                            // alias position: descend into its arguments only
+                            match x {
+                                Sexp::List(ys) => Sexp::List(ys.iter().map(|y| map_types(y, f)).collect()),
+                                _ => x.clone(),
+                            }
+                        } else {
+                            map_types(x, f)
+                        }
+                    })
+                    .collect(),
+            )
+        }
+    }
+}
